@@ -198,6 +198,9 @@ theorem c19_stop (f : ℕ → ℚ) (P : Params) (hmax : 1 ≤ P.maxSamples) :
     simp only [stops, stopNow, Gen.repCheck, Gen.Default.repCheck, Gen.repHitMax, Gen.Default.repHitMax,
       Gen.repRtol, Gen.Default.repRtol, Gen.repAtol, Gen.Default.repAtol,
       Bool.or_eq_true, Bool.and_eq_true, decide_eq_true_eq, gt_iff_lt, ge_iff_le]
+    -- an equivalent spelling of the two integer tests (`i + 1 >= max_samples`, …) is settled by arithmetic
+    try (constructor <;> (intro h; rcases h with ⟨h1, h2⟩ | h) <;>
+      first | (left; exact ⟨by omega, h2⟩) | (right; omega))
   have hfuel : max 1 P.maxSamples.toNat = P.maxSamples.toNat := by omega
   have hlast : stops f P (P.maxSamples.toNat - 1) = true := by
     rw [hspec]; right; omega
